@@ -129,8 +129,29 @@ def judge(case, stats=None):
     except OSError: pass
 
 
+def big_design(n, w, salt):
+  """a flat design with n wires (more signals than the 94 one-character VCD identifier codes, twice over)"""
+  R = lambda sig, sl=None: {"inst": "", "sig": sig, "fld": [], "sl": sl}
+  top = {"ports": [["in1", "in", ["b", w]], ["out1", "out", ["b", w]]], "wires": [], "children": [], "conns": [],
+         "blocks": [], "uu": []}
+  stmts = []
+  for i in range(n):
+    top["wires"].append([f"v{i}", ["b", w]])
+    src = ["sig", R("in1")] if i % 7 == 0 else ["sig", R(f"v{i - 1}")]
+    e = ["bin", "+" if (i + salt) % 3 else "^", src, ["const", w, (i * 2654435761 + salt) % (1 << w)]]
+    stmts.append(["assign", R(f"v{i}"), e])
+    if len(stmts) == 16 or i == n - 1:
+      top["blocks"].append({"name": f"upb{len(top['blocks'])}", "kind": "comb", "stmts": stmts}); stmts = []
+  top["conns"].append([R("out1"), R(f"v{n - 1}")])
+  return {"classes": {"Top": top}, "top": "Top"}
+
+
 @st.composite
 def cases(draw):
+  if draw(st.integers(0, 39)) == 0:
+    design = big_design(draw(st.integers(190, 260)), draw(st.integers(6, 16)), draw(st.integers(0, 99)))
+    seq = draw(rtl_gen.input_seqs(design, ncycles=3))
+    return {"design": design, "seq": seq, "big": True}
   design = draw(rtl_gen.designs(max_steps=5))
   base = draw(rtl_gen.input_seqs(design, ncycles=draw(st.integers(4, 9))))
   # revisit earlier input vectors
@@ -157,6 +178,7 @@ def run_shard(ctx):
       if stats.get(k): ctx.label(k)
     if has_struct: ctx.label("struct_signal")
     if len(case["design"]["classes"]) > 1: ctx.label("hierarchical")
+    if case.get("big"): ctx.label("more_than_188_signals")
     if v is None and has_struct and stats.get("revisit") and stats.get("constant") and stats.get("shared_net"):
       ctx.nontriv([case["design"], case["seq"]])
     ctx.judge(case, v)
